@@ -96,5 +96,18 @@ Definition ulam2_cores (s1 s2 : nat) (ts : list trans2) (uniq : list (nat * nat)
     mkcore rank s2 s2 1 (fun i x y _ =>
       count_if (length ts) (fun t => let '(_, x2, _, y2) := nth t ts (0, 0, 0, 0)%nat in
                                      Nat.eqb (nth t inv 0%nat) i && Nat.eqb x2 x && Nat.eqb y2 y)) ].
+(* ulam_3d before transposition and scaling: transitions (x1, x2, x3, y1, y2, y3) 0-based; [uniq1] / [inv1] the distinct
+   (x1, y1) pairs and [uniq2] / [inv2] the distinct (x3, y3) pairs with the index of each transition, as numpy.unique
+   returns them; the middle core counts the transitions per (pair index, x2, y2, pair index) *)
+Definition trans3 := (nat * nat * nat * nat * nat * nat)%type.
+Definition t3d : trans3 := (0, 0, 0, 0, 0, 0)%nat.
+Definition ulam3_cores (s1 s2 s3 : nat) (ts : list trans3) (uniq1 : list (nat * nat)) (inv1 : list nat)
+           (uniq2 : list (nat * nat)) (inv2 : list nat) : list core :=
+  let r1 := length uniq1 in let r2 := length uniq2 in
+  [ mkcore 1 s1 s1 r1 (fun _ x y i => ind (Nat.eqb x (fst (nth i uniq1 (0, 0)%nat)) && Nat.eqb y (snd (nth i uniq1 (0, 0)%nat))));
+    mkcore r1 s2 s2 r2 (fun i x y j =>
+      count_if (length ts) (fun t => let '(_, x2, _, _, y2, _) := nth t ts t3d in
+                                     Nat.eqb (nth t inv1 0%nat) i && Nat.eqb x2 x && Nat.eqb y2 y && Nat.eqb (nth t inv2 0%nat) j));
+    mkcore r2 s3 s3 1 (fun j x y _ => ind (Nat.eqb x (fst (nth j uniq2 (0, 0)%nat)) && Nat.eqb y (snd (nth j uniq2 (0, 0)%nat)))) ].
 End Slim.
 Arguments site : clear implicits.
